@@ -383,33 +383,12 @@ func (db *SingleBucketBackend) PutObject(
 		}
 	}
 
-	f, err := db.fs.Create(objectFilePath)
+	hash, err := writeObjectFile(db.fs, objectFilePath, input, size)
 	if err != nil {
+		// don't leave directories behind that were only created for this upload
+		removeEmptyParents(db.fs, path.Clean(objectName), ".")
 		return result, err
 	}
-
-	var closed bool
-	defer func() {
-		// Unfortunately, afero's MemMapFs updates the mtime if you double-close, which
-		// highlights that other afero.Fs implementations may have side effects here::
-		if !closed {
-			f.Close()
-		}
-	}()
-
-	hasher := md5.New()
-	w := io.MultiWriter(f, hasher)
-	if _, err := io.Copy(w, input); err != nil {
-		return result, err
-	}
-
-	// We have to close here before we stat the file as some filesystems don't update the
-	// mtime until after close:
-	if err := f.Close(); err != nil {
-		return result, err
-	}
-
-	closed = true
 
 	stat, err := db.fs.Stat(objectFilePath)
 	if err != nil {
@@ -418,7 +397,7 @@ func (db *SingleBucketBackend) PutObject(
 
 	storedMeta := &Metadata{
 		File:    objectName,
-		Hash:    hasher.Sum(nil),
+		Hash:    hash,
 		Meta:    meta,
 		Size:    stat.Size(),
 		ModTime: stat.ModTime(),
